@@ -318,11 +318,12 @@ def _finish(coll, low):
     if len(parts) == 1:
         return parts[0]
     out = pd.concat(parts)
-    names = [p.index.name for p in parts if len(p)]
+    names = [p.index.name for p in parts]        # empty partitions included: pandas looks at their index name as well
     if len(set(names)) > 1:
-        # partitions that disagree on the index NAME (a per-partition schema matter, judged by C07): pandas drops the name when
-        # concatenating, compute() keeps the first one - take the first so that both executions are read alike
-        out.index.name = names[0]
+        # partitions that disagree on the index NAME (a per-partition schema matter, judged by C07 - finding F59): which name the
+        # concatenated result gets depends on the concatenating code path (pandas drops it, a repartition keeps the first):
+        # the name is reported as unspecified ("*"), Rel!AcceptTable accepts any name against it
+        out.attrs["verif_ambiguous_index_name"] = True
     return out
 
 
@@ -367,10 +368,10 @@ def raw_table(obj):
     import pandas as pd
     if isinstance(obj, pd.DataFrame):
         rows = [[_num(i)] + [_num(v) for v in r] for i, r in zip(obj.index, obj.to_numpy(dtype=object))]
-        return {"kind": "frame", "cols": [_label(c) for c in obj.columns], "name": "", "iname": _label(obj.index.name), "rows": rows}
+        return {"kind": "frame", "cols": [_label(c) for c in obj.columns], "name": "", "iname": "*" if obj.attrs.get("verif_ambiguous_index_name") else _label(obj.index.name), "rows": rows}
     if isinstance(obj, pd.Series):
         rows = [[_num(i), _num(v)] for i, v in zip(obj.index, obj.to_numpy(dtype=object))]
-        return {"kind": "series", "cols": [], "name": _label(obj.name), "iname": _label(obj.index.name), "rows": rows}
+        return {"kind": "series", "cols": [], "name": _label(obj.name), "iname": "*" if obj.attrs.get("verif_ambiguous_index_name") else _label(obj.index.name), "rows": rows}
     if isinstance(obj, pd.Index):
         rows = [[0, _num(v)] for v in obj]
         return {"kind": "index", "cols": [], "name": _label(obj.name), "iname": "", "rows": rows}
